@@ -95,6 +95,8 @@ def check(ctx):
                         ctx.fail("oracle", f"C09/oracle/{mname}/order{order}", f"{mname} of {sc['name']} order {order} cutoff={cut} eig_path={'large' if thr else 'default'} is not orthonormal ({d:.2e})",
                                  replay={"cell": sc["name"], "lattice": sc["lattice"].tolist(), "positions": sc["positions"].tolist(), "numbers": [int(x) for x in sc["numbers"]], "order": order, "cutoff": cut, "eig_threshold": thr}, has_input=True)
     for kind, M in gmat(rng, True):
+        if M.shape[0] > 200:
+            continue        # the large dense matrix is C15's
         for solver, target in (("eigsh_projector", None), ("stable", None), ("large", 3)):
             try:
                 E = run_solver(solver, M.copy(), target=target)
